@@ -207,16 +207,20 @@ class AbstractBlob:
         if self.verified.is_set():
             return
 
-        def update_events(_):
-            self.verified.set()
+        def stored(task) -> bool:
+            return not task.cancelled() and task.exception() is None
+
+        def update_events(task):
             self.writing.clear()
+            if stored(task):
+                self.verified.set()
 
         if self.is_writeable():
             self.writing.set()
             task = self._write_blob(verified_bytes)
             task.add_done_callback(update_events)
             if self.blob_completed_callback:
-                task.add_done_callback(lambda _: self.blob_completed_callback(self))
+                task.add_done_callback(lambda t: self.blob_completed_callback(self) if stored(t) else None)
 
     def get_blob_writer(self, peer_address: typing.Optional[str] = None,
                         peer_port: typing.Optional[int] = None) -> HashBlobWriter:
